@@ -41,11 +41,18 @@ type callSite struct {
 	locks  []string
 }
 
+// a point where a goroutine may have to wait: a lock acquisition, a channel operation, WaitForMark
+type blockOp struct {
+	op    string
+	locks []string
+}
+
 type fnInfo struct {
 	name     string
 	accesses []access
 	calls    []callSite
 	goes     []string
+	blocks   []blockOp
 }
 
 type lockWalker struct {
@@ -85,6 +92,21 @@ func (w *lockWalker) release(name string) {
 			return
 		}
 	}
+}
+
+func (w *lockWalker) blk(op string) {
+	w.info.blocks = append(w.info.blocks, blockOp{op, append([]string(nil), w.held...)})
+}
+
+// name of a channel expression: DB.flushC for db.flushC
+func chanName(e ast.Expr) string {
+	s := exprStr(e)
+	if i := strings.LastIndex(s, "."); i >= 0 {
+		if t, ok := varTypes[s[:i]]; ok {
+			return t + "." + s[i+1:]
+		}
+	}
+	return s
 }
 
 func (w *lockWalker) acc(loc string, write bool) {
@@ -134,13 +156,18 @@ func (w *lockWalker) expr(e ast.Expr, lhs bool) {
 				ln := w.lockName(f.X)
 				switch name {
 				case "Lock":
+					w.blk("lock " + ln)
 					w.hold(ln, true)
 				case "RLock":
+					w.blk("rlock " + ln)
 					w.hold(ln, false)
 				default:
 					w.release(ln)
 				}
 				return
+			}
+			if name == "WaitForMark" {
+				w.blk("wait " + exprStr(f.X))
 			}
 			// method call on a tracked location: a read or a write of the object behind it
 			if loc := trackedLoc(f.X); loc != "" {
@@ -185,6 +212,9 @@ func (w *lockWalker) expr(e ast.Expr, lhs bool) {
 		}
 		w.expr(x.Index, false)
 	case *ast.UnaryExpr:
+		if x.Op == token.ARROW {
+			w.blk("recv " + chanName(x.X))
+		}
 		w.expr(x.X, false)
 	case *ast.BinaryExpr:
 		w.expr(x.X, false)
@@ -231,6 +261,7 @@ func (w *lockWalker) stmt(st ast.Stmt) {
 	case *ast.IncDecStmt:
 		w.expr(x.X, true)
 	case *ast.SendStmt:
+		w.blk("send " + chanName(x.Chan))
 		w.expr(x.Value, false)
 	case *ast.GoStmt:
 		if s, ok := x.Call.Fun.(*ast.SelectorExpr); ok {
@@ -349,6 +380,11 @@ func genLockTable(repo, out string) {
 		locks         []string
 	}
 	var rows []row
+	type brow struct {
+		op, fn, root string
+		locks        []string
+	}
+	var brows []brow
 	var visit func(fn string, ctx []string, root string, depth int)
 	visit = func(fn string, ctx []string, root string, depth int) {
 		info := fns[fn]
@@ -362,6 +398,9 @@ func genLockTable(repo, out string) {
 		seen[key] = true
 		for _, a := range info.accesses {
 			rows = append(rows, row{a.loc, fn, root, a.write, uniq(append(append([]string(nil), ctx...), a.locks...))})
+		}
+		for _, b := range info.blocks {
+			brows = append(brows, brow{b.op, fn, root, uniq(append(append([]string(nil), ctx...), b.locks...))})
 		}
 		for _, c := range info.calls {
 			visit(c.callee, uniq(append(append([]string(nil), ctx...), c.locks...)), root, depth+1)
@@ -392,6 +431,31 @@ func genLockTable(repo, out string) {
 			ls = append(ls, fmt.Sprintf("(%q, %v)", p[0], p[1] == "X"))
 		}
 		line := fmt.Sprintf("  { loc := %q, write := %v, locks := [%s], fn := %q, root := %q }", r.loc, r.write, strings.Join(ls, ", "), r.fn, r.root)
+		if line == last {
+			continue
+		}
+		last = line
+		if !first {
+			sb.WriteString(",\n")
+		}
+		first = false
+		sb.WriteString(line)
+	}
+	sb.WriteString("\n]\n\n")
+	// ---- where a goroutine can wait, and what it holds there ----
+	sort.Slice(brows, func(i, j int) bool {
+		return fmt.Sprint(brows[i].op, brows[i].locks, brows[i].fn, brows[i].root) < fmt.Sprint(brows[j].op, brows[j].locks, brows[j].fn, brows[j].root)
+	})
+	sb.WriteString("/-- one row per point where a goroutine may have to wait (lock acquisition, channel send / receive,\n    WaitForMark) with the locks it holds there -/\nstructure BRow where\n  kind : String\n  obj : String\n  held : List (String × Bool)\n  fn : String\n  root : String\nderiving Repr, DecidableEq\n\ndef brows : List BRow := [\n")
+	last, first = "", true
+	for _, r := range brows {
+		var ls []string
+		for _, l := range r.locks {
+			p := strings.Split(l, ":")
+			ls = append(ls, fmt.Sprintf("(%q, %v)", p[0], p[1] == "X"))
+		}
+		kp := strings.SplitN(r.op, " ", 2)
+		line := fmt.Sprintf("  { kind := %q, obj := %q, held := [%s], fn := %q, root := %q }", kp[0], kp[1], strings.Join(ls, ", "), r.fn, r.root)
 		if line == last {
 			continue
 		}
